@@ -10,6 +10,7 @@
 // crashes/aborts attributed to the exact configuration.
 #include "vcommon.hpp"
 #include "ntt_goldilocks.hpp"
+#include "ntt_goldilocks.cpp" // compiled into this TU (not linked separately): the static helper BR() is checked directly
 #include "ntt_oracle.hpp"
 using namespace vc;
 typedef Goldilocks::Element E;
@@ -47,8 +48,96 @@ static std::string fail_class(const Case &c)
     return cl;
 }
 
+// ---- large sizes (n > 1024): the full basis is too expensive; column c carries the impulse e_{j_c} with j_c from a
+// boundary set, every output row is compared with the closed form (w^j)^k computed incrementally; a second call
+// with a dense non-canonical input is compared at sampled rows by direct evaluation.
+static void run_case_big(const Case &c)
+{
+    const u64 n = c.n, ncols = c.ncols, nout = (c.mode == M_EXT) ? c.next : n;
+    const std::string prop = propof[c.mode];
+    NTT_Goldilocks ntt(c.D, c.nthreads);
+    const u64 wn = Goldilocks::w(lg(n)).fe % GP, wi = F.inv(wn), ni = F.inv(n % GP), wx = Goldilocks::w(lg(nout)).fe % GP;
+    std::vector<u64> js = {1, n / 2 + 1, n - 1, 4097 % n, 0x15555 % n, 2, n / 2, 0};
+    size_t nsrc = n * ncols, ndst = nout * ncols;
+    size_t srclen = (c.mode == M_EXT && c.dst == 0) ? ndst : nsrc;
+    GuardArena<E> src(srclen, true), dst(ndst + 1, true), buf(ndst, true);
+    const u64 SENT = 0x5E5E5E5E5E5E5E5EULL;
+    for (int round = 0; round < 2; round++)
+    {
+        bool dense = round == 1;
+        std::vector<u64> in(nsrc, 0);
+        if (!dense) for (u64 cc = 0; cc < ncols; cc++) in[js[cc % js.size()] * ncols + cc] = 1;
+        else for (u64 j = 0; j < n; j++) for (u64 cc = 0; cc < ncols; cc++)
+        {
+            u64 v = ((j * 7 + cc * 13 + 1) * 0x9E3779B97F4A7C15ULL);
+            if ((j + cc) % 3 == 0) v = ~0ULL - (j + cc);
+            in[j * ncols + cc] = v;
+        }
+        for (size_t i = 0; i < srclen; i++) src.p[i].fe = (i < nsrc) ? in[i] : (SENT ^ i);
+        for (size_t i = 0; i < ndst + 1; i++) dst.p[i].fe = SENT;
+        E *d = (c.dst == 0) ? src.p : (c.dst == 1 ? dst.p + 1 : nullptr);
+        E *b = c.buf ? buf.p : nullptr;
+        if (c.mode == M_NTT) ntt.NTT(d, src.p, n, ncols, b, c.nphase, c.nblock);
+        else if (c.mode == M_INTT) ntt.INTT(d, src.p, n, ncols, b, c.nphase, c.nblock);
+        else ntt.extendPol(d, src.p, nout, n, ncols, b, c.nphase, c.nblock);
+        rep().stat("transitions");
+        rep().stat("evaluations");
+        const E *res = (c.dst == 1) ? dst.p + 1 : src.p;
+        auto Kjk = [&](u64 j, u64 k) -> u64 {
+            if (c.mode == M_NTT) return F.pow(wn, (u64)(((u128)j * k) % n));
+            if (c.mode == M_INTT) return F.mul(ni, F.pow(wi, (u64)(((u128)j * k) % n)));
+            u64 q = F.mul(F.pow(wi, j), F.mul(7, F.pow(wx, k)));
+            if (q == 1) return 1;
+            return F.mul(ni, F.mul(F.sub(F.pow(q, n), 1), F.inv(F.sub(q, 1))));
+        };
+        if (!dense)
+        {
+            for (u64 cc = 0; cc < ncols; cc++)
+            {
+                u64 j = js[cc % js.size()];
+                for (u64 k = 0; k < nout; k++)
+                {
+                    u64 ex = Kjk(j, k), g = res[k * ncols + cc].fe;
+                    if (g % GP != ex)
+                    {
+                        rep().viol(prop + ".wrong." + mname[c.mode] + ".big." + fail_class(c), casestr(c), fmt("impulse e_%llu in column %llu: out[%llu] = %s expected %s", (unsigned long long)j, (unsigned long long)cc, (unsigned long long)k, hex(g).c_str(), hex(ex).c_str()));
+                        return;
+                    }
+                }
+            }
+        }
+        else
+        {
+            std::vector<u64> ks = {0, 1, 2, nout / 2, nout - 1, 4097 % nout, 0x2AAAA % nout, nout / 2 + 1};
+            for (u64 k : ks)
+                for (u64 cc = 0; cc < ncols; cc++)
+                {
+                    u64 ex = 0;
+                    if (c.mode == M_EXT)
+                    {
+                        // f(x) at x = 7 w_Next^k with f the interpolant: sum_j in[j] * L_j(x)
+                        for (u64 j = 0; j < n; j++) { if (in[j * ncols + cc] % GP) ex = F.add(ex, F.mul(in[j * ncols + cc], Kjk(j, k))); }
+                    }
+                    else
+                    {
+                        u64 base = (c.mode == M_NTT) ? F.pow(wn, k % n) : F.pow(wi, k % n), acc = 0;
+                        for (u64 j = n; j-- > 0;) acc = F.add(F.mul(acc, base), in[j * ncols + cc] % GP); // Horner
+                        ex = (c.mode == M_NTT) ? acc : F.mul(ni, acc);
+                    }
+                    u64 g = res[k * ncols + cc].fe;
+                    if (g % GP != ex)
+                    {
+                        rep().viol(prop + ".wrong." + mname[c.mode] + ".big." + fail_class(c), casestr(c), fmt("dense input: out[%llu][%llu] = %s expected %s", (unsigned long long)k, (unsigned long long)cc, hex(g).c_str(), hex(ex).c_str()));
+                        return;
+                    }
+                }
+        }
+    }
+}
+
 static void run_case(const Case &c)
 {
+    if (c.n > 1024 || c.next > 1024) { run_case_big(c); return; }
     const u64 n = c.n, ncols = c.ncols;
     const u64 nout = (c.mode == M_EXT) ? c.next : n;
     const std::string prop = propof[c.mode];
@@ -74,8 +163,12 @@ static void run_case(const Case &c)
     // in-place extension: one buffer of nout rows holds the input in its first n rows
     size_t srclen = (c.mode == M_EXT && c.dst == 0) ? ndst : nsrc;
     GuardArena<E> src(srclen, true), dst(ndst + 1, true), buf(ndst, true);
-    u64 rounds = (n == 0 || ncols == 0) ? 1 : n + 1;
-    for (u64 t = 0; t < rounds; t++)
+    // complete impulse basis up to n = 64; above that a boundary subset of the basis plus the dense input
+    std::vector<u64> ts;
+    if (n == 0 || ncols == 0) ts.push_back(0);
+    else if (n <= 64) { for (u64 t = 0; t <= n; t++) ts.push_back(t); }
+    else { for (u64 t : {(u64)0, (u64)1, (u64)2, n / 2 - 1, n / 2, n / 2 + 1, n - 2, n - 1, n}) ts.push_back(t); }
+    for (u64 t : ts)
     {
         bool dense = (t == n);
         std::vector<u64> in(nsrc, 0);
@@ -170,6 +263,29 @@ int main(int argc, char **argv)
     if (!args.one.empty())
     {
         Case c;
+        {
+            auto m = parse_case(args.one);
+            std::string tb = cs(m, "table");
+            if (tb == "BR")
+            {
+                unsigned d = (unsigned)cu(m, "d");
+                u64 x = cu(m, "x"), r = 0;
+                for (unsigned i = 0; i < d; i++) if ((x >> i) & 1) r |= 1ULL << (d - 1 - i);
+                if (BR(x, d) != r) rep().viol("C03.table.BR", args.one, "bit reversal wrong");
+                rep().flush();
+                return 0;
+            }
+            if (tb == "W")
+            {
+                unsigned k = (unsigned)cu(m, "index");
+                u64 w = Goldilocks::w(k).fe;
+                bool ok = w < GP && F.pow(w, 1ULL << k) == 1 && (k < 1 || F.pow(w, 1ULL << (k - 1)) == GP - 1) && (k >= 32 || F.mul(Goldilocks::w(k + 1).fe, Goldilocks::w(k + 1).fe) == w);
+                if (!ok) rep().viol("C03.table.W", args.one, "root table row wrong");
+                rep().flush();
+                return 0;
+            }
+            if (tb == "SHIFT") { if (Goldilocks::shift().fe != 7) rep().viol("C05.table.SHIFT", args.one, "coset shift is not 7"); rep().flush(); return 0; }
+        }
         if (!parse(args.one, c)) return 2;
         ChildResult r = run_child([&](FILE *f) { dup2(fileno(f), 1); rep().reset(); run_case(c); rep().flush(); fflush(stdout); });
         if (r.kind == 0) fwrite(r.out.data(), 1, r.out.size(), stdout);
@@ -188,11 +304,33 @@ int main(int argc, char **argv)
         rep().stat("table_obligations");
     }
     if (Goldilocks::shift().fe != 7) rep().viol("C05.table.SHIFT", "table=SHIFT", "coset shift is not 7");
+    // bit-reversal helper BR(x, d): every width d = 1..32, all x below 2^12 (all of them when d <= 12), every one-bit and
+    // two-bit pattern, all-ones and alternating patterns -- compared with a bit loop
+    {
+        auto naive = [](u64 x, unsigned d) { u64 r = 0; for (unsigned i = 0; i < d; i++) if ((x >> i) & 1) r |= 1ULL << (d - 1 - i); return r; };
+        long long ob = 0;
+        for (unsigned d = 1; d <= 32; d++)
+        {
+            std::vector<u64> xs;
+            u64 lim = (d <= 12) ? (1ULL << d) : 4096;
+            for (u64 x = 0; x < lim; x++) xs.push_back(x);
+            for (unsigned i = 0; i < d; i++) { xs.push_back(1ULL << i); for (unsigned j = i + 1; j < d; j++) xs.push_back((1ULL << i) | (1ULL << j)); }
+            u64 m = (d == 64) ? ~0ULL : ((1ULL << d) - 1);
+            xs.push_back(m); xs.push_back(0x5555555555555555ULL & m); xs.push_back(0xAAAAAAAAAAAAAAAAULL & m); xs.push_back(0x0F0F0F0F0F0F0F0FULL & m); xs.push_back(0x00FF00FF00FF00FFULL & m); xs.push_back(0x0000FFFF0000FFFFULL & m);
+            for (u64 x : xs)
+            {
+                ob++;
+                u64 g = BR(x, d), ex = naive(x, d);
+                if (g != ex) { rep().viol("C03.table.BR", fmt("table=BR d=%u x=%s", d, hex(x).c_str()), fmt("bit reversal of %u bits gives %s expected %s", d, hex(g).c_str(), hex(ex).c_str())); break; }
+            }
+        }
+        rep().stat("table_obligations", ob);
+    }
     std::string which = cs(args.kv, "prop", "C03");
     const bool th = args.thorough();
     std::vector<Case> cases;
     std::vector<u64> Ds = {1, 2, 4, 8, 16, 32};
-    if (th) { Ds.push_back(64); Ds.push_back(128); }
+    if (th) { Ds.push_back(64); Ds.push_back(128); Ds.push_back(256); Ds.push_back(1024); }
     std::vector<unsigned> nth = th ? std::vector<unsigned>{1, 2, 3, 7} : std::vector<unsigned>{1, 3};
     if (which == "C03" || which == "C04")
     {
@@ -205,6 +343,7 @@ int main(int argc, char **argv)
                 for (u64 ncols : {0ULL, 1ULL, 2ULL, 3ULL, 5ULL})
                 {
                     if ((n == 0 || ncols == 0) && D > 4) continue; // no-op shapes: small objects suffice
+                    if (D >= 256 && (ncols == 2 || ncols == 5 || (n < D && n > 8 && n != D / 2))) continue; // big objects: reduced cross product
                     std::vector<u64> phases;
                     for (u64 p = 0; p <= lg(D) + 2; p++) phases.push_back(p);
                     phases.push_back(~0ULL);
@@ -255,6 +394,27 @@ int main(int argc, char **argv)
             }
     }
     {
+        // large sizes
+        std::vector<u64> big = th ? std::vector<u64>{2048, 8192, 16384, 65536, 262144, 1048576} : std::vector<u64>{8192, 16384, 65536};
+        int mode = which == "C03" ? M_NTT : which == "C04" ? M_INTT : M_EXT;
+        for (u64 n : big)
+            for (u64 ncols : {1ULL, 3ULL})
+                for (u64 ph : {1ULL, 2ULL, 3ULL, 4ULL})
+                    for (u64 bl : {1ULL, 2ULL})
+                        for (int dst = 0; dst < 2; dst++)
+                        {
+                            if (bl > ncols) continue;
+                            if (n >= 262144 && (ncols == 3 || ph == 1)) continue;
+                            unsigned t = (ph % 2) ? 4 : 3;
+                            if (mode == M_EXT) { if (n > 65536 || (!th && n > 8192)) continue; cases.push_back({M_EXT, n, n, 2 * n, ncols, ph, bl, (int)(ph & 1), dst, t, 0}); }
+                            else
+                            {
+                                cases.push_back({mode, n, n, 0, ncols, ph, bl, (int)(ph & 1), dst, t, 0});
+                                if (n <= 65536) cases.push_back({mode, 2 * n, n, 0, ncols, ph, bl, (int)(ph & 1), dst, t, 0}); // object domain above the size
+                            }
+                        }
+    }
+    {
         // non-initial object states: the same measured call after another call on the object
         std::vector<Case> extra;
         std::set<std::string> seen;
@@ -274,7 +434,7 @@ int main(int argc, char **argv)
         rep().stat("cases_from_non_initial_object_state", (long long)extra.size());
     }
     if (args.seed) std::rotate(cases.begin(), cases.begin() + (args.seed % cases.size()), cases.end());
-    isolated_for((long)cases.size(), args.jobs, 48, [&](long i) { run_case(cases[i]); }, [&](long i, const ChildResult &r) { report_crash(cases[i], r); }, 300);
+    isolated_for((long)cases.size(), args.jobs, 24, [&](long i) { run_case(cases[i]); }, [&](long i, const ChildResult &r) { report_crash(cases[i], r); }, 300);
     long long nt = 0;
     std::set<std::string> classes;
     for (auto &c : cases)
